@@ -159,6 +159,28 @@ func runClientBody(body []byte, abrupt bool) (msgs [][]byte, fin int64, panicked
 	}
 }
 
+// runClientSingle: the client of a single-response method receives once
+func runClientSingle(body []byte, abrupt bool) (ok bool, msg []byte, panicked interface{}) {
+	base, _ := url.Parse("http://replay.invalid/")
+	ch := &httpgrpc.Channel{Transport: replayRT{body, abrupt}, BaseURL: base}
+	defer func() {
+		if p := recover(); p != nil {
+			panicked = p
+		}
+	}()
+	cs, err := ch.NewStream(context.Background(), hx.StreamDescOf("CS"), "/verif.Svc/CS")
+	if err != nil {
+		return false, nil, nil
+	}
+	defer runtime.KeepAlive(cs)
+	cs.CloseSend()
+	var m RawMsg
+	if err := cs.RecvMsg(&m); err != nil {
+		return false, nil, nil
+	}
+	return true, m.B, nil
+}
+
 func runServerBody(kind string, body []byte, abrupt bool) (msgs [][]byte, fin int64, panicked interface{}) {
 	desc := hx.Desc(hx.SvcName)
 	var sd *grpc.StreamDesc
@@ -259,6 +281,18 @@ func runC07(o *hx.Out, r *hx.Rand, thorough bool) {
 			o.Violate("a cut reply was reported as success", desc, fin, "an error")
 		}
 		o.Case(kind, fmt.Sprintf("Cli %s %s %s %s %s %s", hx.Hex(body), hx.B(abrupt), hx.B(cut), trailerCandidates(body), hexList(msgs), hx.Z(fin)), desc)
+		// the same reply read by the client of a single-response method
+		if len(body) <= 4096 {
+			ok, m, p := runClientSingle(body, abrupt)
+			d1 := map[string]interface{}{"side": "client of a single-response method", "body_hex": desc["body_hex"], "abrupt": abrupt, "cut": cut, "success": ok, "message": hex.EncodeToString(m)}
+			if p != nil {
+				o.Violate("client decoder panicked", d1, fmt.Sprint(p), nil)
+			}
+			if cut && ok {
+				o.Violate("a cut reply was reported as success by a single-response receive", d1, "success", "an error")
+			}
+			o.Case(kind+"_single", fmt.Sprintf("CliSingle %s %s %s %s %s %s", hx.Hex(body), hx.B(abrupt), hx.B(cut), trailerCandidates(body), hx.B(ok), hx.Hex(m)), d1)
+		}
 	}
 	srv := func(kind string, single bool, body []byte, abrupt bool) {
 		sk := "CS"
@@ -300,6 +334,48 @@ func runC07(o *hx.Out, r *hx.Rand, thorough bool) {
 			cli("hostile_prefix", b, ab, false)
 			srv("hostile_prefix_srv", false, b, ab)
 			srv("hostile_prefix_srv1", true, b, ab)
+		}
+	}
+	// bodies with large frames followed by smaller large ones and by small ones (a decoder that keeps a buffer
+	// between frames must not read past the frame it is decoding).  Too large to be re-evaluated as Coq terms:
+	// the expectation (exactly the frames that were written, then a clean end) is computed here.
+	gid := int64(0)
+	for _, sizes := range [][]int{{9000, 5000, 4200, 10, 0}, {4096, 4097, 4095, 1}, {20000, 8000}, {5000, 5000, 5000}} {
+		var body []byte
+		var want [][]byte
+		for _, n := range sizes {
+			m := r.Bytes(n)
+			want = append(want, m)
+			body = append(body, frame(m)...)
+		}
+		same := func(got [][]byte) bool {
+			if len(got) != len(want) {
+				return false
+			}
+			for i := range got {
+				if !bytes.Equal(got[i], want[i]) {
+					return false
+				}
+			}
+			return true
+		}
+		for _, ab := range []bool{false, true} {
+			msgs, fin, p := runServerBody("BD", body, ab)
+			gid++
+			ok := p == nil && same(msgs) && (fin == 0 || ab) // a body that breaks off, even at a frame boundary, ends in an error
+			d := map[string]interface{}{"side": "server", "frame_sizes": sizes, "abrupt_end": ab, "delivered": len(msgs), "final": fin}
+			if !ok {
+				o.Violate("a well-formed request body of large frames was not decoded to the frames written", d, len(msgs), len(want))
+			}
+			o.Case("large_request", fmt.Sprintf("GoSide %s %d %s", hx.Str("large_request"), gid, hx.B(ok)), d)
+			msgs, fin, p = runClientBody(append(append([]byte{}, body...), trailerFrame(mkTrailer(0, "OK", nil))...), ab)
+			gid++
+			ok = p == nil && same(msgs) && fin == 0
+			d = map[string]interface{}{"side": "client", "frame_sizes": sizes, "abrupt_end": ab, "delivered": len(msgs), "final": fin}
+			if !ok {
+				o.Violate("a well-formed reply of large frames was not decoded to the frames written", d, len(msgs), len(want))
+			}
+			o.Case("large_reply", fmt.Sprintf("GoSide %s %d %s", hx.Str("large_reply"), gid, hx.B(ok)), d)
 		}
 	}
 	// a reply that ends cleanly at a frame boundary without trailer (was: success)
